@@ -833,23 +833,46 @@ def witness_failed_loads(ctx):
         ctx.violation('F16 witness: refused load(levels=True)', dict(
             problems=bad[:4], got=ans, tags=dict(call='load-rejected', what='F16')))
     ctx.case(('witness', 'F16'))
+    # F16, second part: the file's own levels are not a permutation of 0..n-1 (out of range /
+    # repeated): refused before anything is declared, also in a fresh manager
+    for k, vars_ in enumerate(({'a': 1, 'b': 5}, {'a': 1, 'b': 1})):
+        mid = 2 + k
+        s.new(mid, [])
+        d = dict(vars=vars_, succ={1: (2, None, None)}, roots=[1])
+        fh, path = _new_file(s.impl, '.p')
+        with open(path, 'wb') as f:
+            pickle.dump(d, f, protocol=2)
+        fields = pickle_fields(read_pickle(path), False)
+        ans = s.op(mid, 'pload', fh, 1, *fields)
+        ctx.evaluations += 1
+        b = s.mgr(mid)
+        bad = order_views_ok(b) + check_invariants(b, {})
+        if not ans.startswith('err'):
+            bad.append(f'accepted: {ans}')
+        if dict(b.vars):
+            bad.append(f'variables declared by a refused load: {dict(b.vars)}')
+        s.state(mid)
+        if bad:
+            ctx.violation('F16 witness: file levels not a permutation', dict(
+                problems=bad[:4], got=ans, tags=dict(call='load-rejected', what='F16b')))
+        ctx.case(('witness', 'F16b', k))
     # F17
-    s.new(1, [])
+    s.new(9, [])
     fh, path = _new_file(s.impl, '.json')
     with open(path, 'w') as f:
         f.write('{\n"level_of_var": {"x": 0, "y": 1},\n"roots": [3],\n'
                 '"2": [1, "F", "T"],\n"3": [0, "F", 7]\n}\n')
     fields = json_fields(read_json(path), False)
-    ans = s.op(1, 'jload', fh, 'w1', 0, *fields)
+    ans = s.op(9, 'jload', fh, 'w1', 0, *fields)
     ctx.evaluations += 1
-    b = s.mgr(1)
+    b = s.mgr(9)
     bad = order_views_ok(b) + check_invariants(b, {})
     if not ans.startswith('err'):
         bad.append(f'accepted: {ans}')
-    s.op(1, 'gc')
+    s.op(9, 'gc')
     if set(b._succ) != {1}:
         bad.append(f'nodes survive a collection although nothing is held: {sorted(b._succ)}')
-    s.state(1)
+    s.state(9)
     if bad:
         ctx.violation('F17 witness: failed load_json', dict(
             problems=bad[:4], got=ans, tags=dict(call='load-rejected', what='F17')))
@@ -967,7 +990,7 @@ def rejected_content(ctx):
                 s.incref(mid, r)
         return mid
 
-    def run(label, mid, do, gap_possible=False):
+    def run(label, mid, do):
         b = s.mgr(mid)
         old_succ = dict(b._succ)
         old_vars = dict(b.vars)
@@ -984,14 +1007,7 @@ def rejected_content(ctx):
             problems.append(f'ill-formed content accepted: {ans}')
         # order views (bijection onto 0..n-1, the four views agree) and EXACT counts for the
         # caller's ledger: a failed load holds nothing
-        if gap_possible:
-            # levels=True and a file whose levels are not a permutation of 0..n-1: the range
-            # assertion / the level-taken refusal of `add_var` still fires half-way (the
-            # pre-check compares with the manager only) — noted, not judged
-            if order_views_ok(b):
-                ctx.count('rejected:residual-gap(ill-formed levels)')
-        else:
-            problems += order_views_ok(b) + check_invariants(b, dict(s.ledger.get(mid, {})))
+        problems += order_views_ok(b) + check_invariants(b, dict(s.ledger.get(mid, {})))
         for u, t in old_succ.items():
             if u != 1 and b._succ.get(u) != t:
                 problems.append(f'node {u} was {t}, is {b._succ.get(u)}')
@@ -1025,8 +1041,7 @@ def rejected_content(ctx):
             for levels in (0, 1):
                 mid = target()
                 run(f'pickle:{kind}:levels={levels}', mid,
-                    lambda: s.op(mid, 'pload', fh, levels, *fields),
-                    gap_possible=(kind == 'level' and levels == 1))
+                    lambda: s.op(mid, 'pload', fh, levels, *fields))
             mid = target()
             nh[0] += 1
             hh = f'r{nh[0]}'
